@@ -4,6 +4,7 @@ import (
 	"context"
 	"fmt"
 	"net/url"
+	"sort"
 	"sync"
 	"time"
 
@@ -62,7 +63,17 @@ func (r *StaticEndpointRepository) GetAll(ctx context.Context) ([]*domain.Endpoi
 		endpointCopy := *endpoint
 		endpoints = append(endpoints, &endpointCopy)
 	}
+	sortByURL(endpoints)
 	return endpoints, nil
+}
+
+// sortByURL gives the lists handed out a stable order. The endpoints live in a map, whose
+// iteration order changes from call to call; selectors that walk their candidates by
+// position (round-robin) are only fair over a list whose order does not change.
+func sortByURL(endpoints []*domain.Endpoint) {
+	sort.Slice(endpoints, func(i, j int) bool {
+		return endpoints[i].URLString < endpoints[j].URLString
+	})
 }
 
 func (r *StaticEndpointRepository) GetHealthy(ctx context.Context) ([]*domain.Endpoint, error) {
@@ -78,6 +89,7 @@ func (r *StaticEndpointRepository) GetHealthy(ctx context.Context) ([]*domain.En
 		}
 	}
 
+	sortByURL(healthy)
 	return healthy, nil
 }
 
@@ -94,6 +106,7 @@ func (r *StaticEndpointRepository) GetRoutable(ctx context.Context) ([]*domain.E
 		}
 	}
 
+	sortByURL(routable)
 	return routable, nil
 }
 
